@@ -61,7 +61,13 @@ class MemSizeAlgebra:
         self.ctx = ctx
         self.f = ctx.facts
         self.tr = SizeTraits(ctx.facts)
-        self.te = TermEval(ctx.facts, ctx.cg, inline=False)
+        # private helpers (a free fn that multiplies a capacity by a size_of, a forwarding wrapper) are inlined; the methods of the
+        # three size traits stay symbolic calls: they are what the algebra classifies
+        self.te = TermEval(ctx.facts, ctx.cg, inline=True)
+        traits = (self.tr.HEAP, self.tr.VALUE, self.tr.MEM)
+        self.te.no_inline = set(b.path for b in ctx.facts.bodies
+                                if b.is_closure or b.impl_trait in traits or b.j.get("trait_default_of") in traits
+                                or b.impl_trait is not None)
 
     def impl_methods(self, trait):
         """dict self-type-string -> {method name: Body} for impls of `trait` (plus the trait's provided defaults under '<default>')"""
@@ -143,6 +149,9 @@ class MemSizeAlgebra:
                 if self.is_trait_call(a, M, "mem_size"):
                     parts.append(Part("MEM", coef, what=a[1], on=strip_refs(a[2][0]), raw=a))
                     continue
+                if self.is_trait_call(a, V, "value_size"):
+                    parts.append(Part("VAL", coef, what=a[1], on=strip_refs(a[2][0]), raw=a))
+                    continue
                 if a[0] == "call" and norm(a[1]).endswith("::capacity"):
                     parts.append(Part("BUF", coef, what="capacity", on=strip_refs(a[2][0]), via="bytes", raw=a))
                     continue
@@ -164,6 +173,32 @@ class MemSizeAlgebra:
                     parts.append(Part("LENBUF", coef, what="len*size_of", on=lens[0][2][0] if lens[0][2] else None, raw=mono))
                     continue
             parts.append(Part("OTHER", coef, what=" * ".join(show(a) for a in mono), raw=mono))
+        # mem_size(x) is value_size(x) + heap_size(x) (the blanket impl, C08.1): the spelled-out pair is the same part
+        pairs, taken = {}, set()
+        for i, p in enumerate(parts):
+            if p.kind != "PART":
+                continue
+            for j, q in enumerate(parts):
+                if j not in taken and q.kind == "VAL" and q.coef == p.coef and show(q.on) == show(p.on) \
+                        and self.self_of(q.raw) == self.self_of(p.raw):
+                    pairs[i] = j
+                    taken.add(j)
+                    break
+        merged = []
+        for i, p in enumerate(parts):
+            if i in taken:
+                continue
+            if i in pairs:
+                m = "<%s as %s>::mem_size" % (self.self_of(p.raw), self.tr.MEM)
+                merged.append(Part("MEM", p.coef, what=m, on=p.on, raw=("call", m, p.raw[2])))
+            else:
+                merged.append(p)
+        parts = merged
+        # VAL parts that found no partner are not something any impl is expected to contain
+        for p in parts:
+            if p.kind == "VAL":
+                p.kind = "OTHER"
+                p.what = show(p.raw)
         return parts
 
     def results(self, body):
